@@ -630,6 +630,8 @@ impl<'a> Renderer<'a> {
                         StrPart::Lit(s) => self.out.push_str(s),
                         StrPart::Interp(path) => {
                             self.out.push('{');
+                            // (whitespace only: this is inside a string)
+                            self.slot(SlotKind::Single, "interp-open", "");
                             for (i, comp) in path.iter().enumerate() {
                                 if i > 0 {
                                     self.out.push('.');
